@@ -100,6 +100,8 @@ struct upipe_h265f {
     struct uchain blockers;
     /** true if the pipe holds a reference on itself while urefs are buffered */
     bool buffered;
+    /** number of invocations of the Annex B parser (to detect re-entrance) */
+    unsigned int work_calls;
     /** buffered output uref (used during urequest) */
     struct uref *uref_output;
 
@@ -292,6 +294,7 @@ static struct upipe *upipe_h265f_alloc(struct upipe_mgr *mgr,
     upipe_h265f_init_output(upipe);
     upipe_h265f_init_input(upipe);
     upipe_h265f_from_upipe(upipe)->buffered = false;
+    upipe_h265f_from_upipe(upipe)->work_calls = 0;
     upipe_h265f_init_flow_format(upipe);
     upipe_h265f_init_flow_def(upipe);
     upipe_h265f_init_ubuf_mgr(upipe);
@@ -2562,6 +2565,7 @@ static bool upipe_h265f_find(struct upipe *upipe,
 static void upipe_h265f_work_annexb(struct upipe *upipe, struct upump **upump_p)
 {
     struct upipe_h265f *upipe_h265f = upipe_h265f_from_upipe(upipe);
+    unsigned int work_calls = ++upipe_h265f->work_calls;
     while (upipe_h265f->next_uref != NULL) {
         if (upipe_h265f->flow_def_requested == NULL &&
             upipe_h265f->flow_def_attr != NULL)
@@ -2574,6 +2578,14 @@ static void upipe_h265f_work_annexb(struct upipe *upipe, struct upump **upump_p)
 
         upipe_h265f->au_size -= start_size;
         upipe_h265f_end_annexb(upipe, upump_p);
+
+        /* Outputting an access unit may change the flow definition; when the
+         * provider answers the new request at once, the buffered input is
+         * handled from inside this call and this function has already run
+         * again on the same stream, starting over from this start code: the
+         * local state is stale and there is nothing left to do here. */
+        if (upipe_h265f->work_calls != work_calls)
+            return;
 
         if (upipe_h265f->flow_def_requested == NULL &&
             upipe_h265f->flow_def_attr != NULL)
